@@ -274,6 +274,16 @@ func storeInstr(fr *frame, instr *ssa.Store) {
 
 // binopSym handles binary operators with at least one symbolic operand.
 func binopSym(op token.Token, t types.Type, x, y value) (value, bool) {
+	if op == token.LAND || op == token.LOR {
+		if bx, ok := x.(bool); ok {
+			if by, ok := y.(bool); ok {
+				if op == token.LAND {
+					return bx && by, true
+				}
+				return bx || by, true
+			}
+		}
+	}
 	switch x.(type) {
 	case sym:
 		return symBinop(op, x, y), true
